@@ -28,13 +28,15 @@ def run(chk, tier, seed):
         pj = [dict(tag="ini", args=["ini", pl, "{start}", "{out}"], max_restarts=6, one_line_per_input=True, env=noleak),
               dict(tag="aconf", args=["aconf", pl, "{start}", os.path.join(wd, "scratch-%s-%s.conf" % (mode, chk.pid)), "{out}"], max_restarts=6, one_line_per_input=True, env=noleak),
               dict(tag="inir", args=["inir", nr, seed, "{out}"], env=noleak),
-              dict(tag="aconfr", args=["aconfr", nr, seed, os.path.join(wd, "scratchr-%s-%s.conf" % (mode, chk.pid)), "{out}"], env=noleak)]
+              dict(tag="aconfr", args=["aconfr", nr, seed, os.path.join(wd, "scratchr-%s-%s.conf" % (mode, chk.pid)), "{out}"], env=noleak),
+              dict(tag="inif", args=["inif", nr // 2, seed, os.path.join(wd, "incdir-%s-%s" % (mode, chk.pid)), "{out}"], env=noleak, max_restarts=6)]
         refcheck.gen_and_validate(chk, "parsers", pj, "CodecTrace", mode=mode, threads=4, extra_wraps=["qsyscmd"])
     chk.cov["exhaustive"] = not chk.infra
     chk.cov["rule"] = ("TLC runs the URL/hex/Base64 in-place decoders as cursor machines over every string up to length 4-6 on each format's significant "
                        "bytes (read cursor never past the terminator, write cursor never past the read cursor, termination); every string up to length "
                        "4-5 over 8 significant bytes per format is then fed to the real decoders, the query parser, the INI-style and the Apache-style "
                        "parser in exactly-sized heap buffers under a watchdog, on the ledger build and on a clang ASan+UBSan build, plus grammar-aware "
-                       "random documents (self/mutual ${} references, unbalanced quotes and brackets, trailing backslashes, over-long lines); TLC admits "
+                       "random documents (self/mutual ${} references, unbalanced quotes and brackets, trailing backslashes, over-long lines) and INI files "
+                       "with @INCLUDE lines (missing, self- and mutually including files, lines padded around PATH_MAX) through qconfig_parse_file; TLC admits "
                        "no crash/timeout record and checks output length <= input length; each record is a distinct input")
     chk.assumptions.append("out-of-bounds reads that stay inside mapped memory are only visible to the ASan build (DESIGN.md section 7)")
